@@ -14,6 +14,10 @@ from mc import connworld, env, seqx
 MOD = 'checks.c11_objects'
 KINDS = ['mod', 'link', 'add', 'unlink', 'commit', 'abort', 'rival',
          'commit-vote-fail', 'commit-finish-fail', 'close']
+# a new object that is reachable only through an existing object, whose
+# store can fail after the new object was given its oid
+LINKA = ['linka', 'link', 'add', 'mod', 'rival', 'commit',
+         'commit-vote-fail', 'abort']
 
 
 def make_spec(cfg):
@@ -251,7 +255,7 @@ def run(rep, tier, seed, workers):
     depth = 6 if tier == 'quick' else 7
     rep.rule = (
         'all sequences up to the depth over {modify a / n, link n from the '
-        'root, add n explicitly, unlink n, commit, abort, a rival commit to a '
+        'root, link n from the existing object a, add n explicitly, unlink n, commit, abort, a rival commit to a '
         'followed by our conflicting commit, commit with a second resource '
         'manager failing in tpc_vote, commit with the storage failing in '
         'tpc_finish, close + reopen} on a real connection; after every step '
@@ -271,6 +275,10 @@ def run(rep, tier, seed, workers):
                            workers, seed, split=3)
         states += len(fps)
         rep.bounds['%s depth' % kind] = depth if kind == 'M' else depth - 1
+    cfg = dict(prop='C11', kind='M', kinds=LINKA)
+    fps = seqx.explore(rep, MOD, cfg, depth - 1, workers, seed, split=3)
+    states += len(fps)
+    rep.bounds['M depth with a link through an existing object'] = depth - 1
     # refused joins
     from mc import par
     jd = 6 if tier == 'quick' else 8
